@@ -133,10 +133,23 @@ pub struct Case {
     pub group: &'static str,
 }
 
-const INPUTS: [&str; 5] = ["empty", "9bytes", "5k-text", "70k-raw", "400k-raw"];
+const INPUTS: [&str; 6] = ["empty", "9bytes", "5k-text", "70k-raw", "400k-raw", "maxdist"];
 
-fn input_bytes(i: usize) -> Vec<u8> {
+fn input_bytes(i: usize, dict: u32) -> Vec<u8> {
     match i {
+        // period = the dictionary size: every match is at the maximum distance the options allow (the top distance slot)
+        5 => {
+            let d = if (4096..=(1 << 20)).contains(&dict) { dict as usize } else { 4096 };
+            // ... first as 300 short matches (6 bytes, priced one by one by the optimising encoder) between literals,
+            // then as one long run
+            let mut segs = vec![Seg::R(d)];
+            for _ in 0..300 {
+                segs.push(Seg::D(d, 6));
+                segs.push(Seg::R(10));
+            }
+            segs.push(Seg::D(d, 3000));
+            gen::build(&segs, 1)
+        }
         0 => vec![],
         1 => b"abcabcabc".to_vec(),
         2 => gen::build(&[Seg::C(5000)], 1),
@@ -203,7 +216,17 @@ fn build_cases(thorough: bool) -> Vec<Case> {
         for w in WRITERS {
             for input in 0..INPUTS.len() {
                 // the expensive inputs with the big products only in the thorough tier for G2
-                if !thorough && *g == "dict-nice-depth-mf-mode" && input >= 3 && !(o.fast && !o.bt4) {
+                if !thorough && *g == "dict-nice-depth-mf-mode" && (input == 3 || input == 4) && !(o.fast && !o.bt4) {
+                    continue;
+                }
+                // lc/lp/pb do not touch window management or distance coding: the two inputs made for those only with
+                // the other groups in the quick tier
+                if !thorough && *g == "lc-lp-pb" && input >= 4 {
+                    continue;
+                }
+                // LZIPWriterMT cuts its work units by the *unclamped* dictionary size: with dict_size 0 or 1 the 400 KiB
+                // input becomes 400 000 one-byte members (valid, decodable, 14 s per case): thorough tier only
+                if !thorough && matches!(w, W::LzipMt) && o.dict < 4096 && input == 4 {
                     continue;
                 }
                 cases.push(Case { w, o: o.clone(), input, group: g });
@@ -333,7 +356,7 @@ impl IsoCheck for C19 {
     }
     fn run(&self, i: usize, rep: &Report) -> bool {
         let c = &self.cases[i];
-        let input = input_bytes(c.input);
+        let input = input_bytes(c.input, c.o.dict);
         let desc = || self.desc(i);
         let mk = |kind: &str, site: String, detail: String| {
             let mut v = Violation::new(kind, site, desc()).detail(detail);
@@ -393,7 +416,7 @@ pub fn run(cli: &Cli, rep: &Report) {
     rep.rule(
         "E-enum in child processes: boundary values of every public option field (lc 0..9, lp 0..5, pb 0..5, dict {0,1,4095,4096,4097,65536,u32::MAX-15,u32::MAX}, nice_len {0,1,7,8,273,274}, depth {i32::MIN,-1,0,1,i32::MAX}, \
          preset dictionary {none, empty, 1 byte, > dict}, chunk/block/member size {1, dict-1, dict, u64::MAX}, delta distance {0,1,256,257,u32::MAX}, BCJ start offsets aligned and not, 0..4 pre-filters) as the FULL product inside each \
-         interacting group ({lc,lp,pb}; {dict,nice_len,depth,mf,mode}; {preset,size,dict}; {filters}) with all other fields at defaults, x 7 writers (LZMA +-header, LZMA2, LZMA2-MT, XZ, LZIP, LZIP-MT) x inputs {empty, 9 bytes, 5 KiB text, 70 KiB incompressible, 400 KiB incompressible}; \
+         interacting group ({lc,lp,pb}; {dict,nice_len,depth,mf,mode}; {preset,size,dict}; {filters}) with all other fields at defaults, x 7 writers (LZMA +-header, LZMA2, LZMA2-MT, XZ, LZIP, LZIP-MT) x inputs {empty, 9 bytes, 5 KiB text, 70 KiB incompressible, 400 KiB incompressible, a period-dict_size input whose matches all lie at the maximum distance}; \
          oracle: constructor/write/finish returns Err, or the stream decodes with the matching reader to the input; panic/abort/hang = violation; non-trivial = the case ran to a verdict",
     );
     rep.assumption("dictionaries >= 512 MiB are not really allocated (single allocations above 1 GiB are refused by the harness and counted as inconclusive), only the arithmetic leading to them is exercised");
